@@ -16,6 +16,7 @@ restore() {
   for f in $(ls /verif/replays); do grep -qxF "$f" "$keep/replays.before" || mv "/verif/replays/$f" "$keep/replays/"; done
   [ -n "$MUTANT_REPLAYS" ] && { mkdir -p "$MUTANT_REPLAYS"; cp -a "$keep/replays/." "$MUTANT_REPLAYS/" 2>/dev/null; }
   rm -rf "$keep"
+  /verif/vcheck build   # the harness binary must again be the one of /repo's own tree
 }
 trap restore EXIT
 /verif/vcheck build || { echo "BUILD FAILED with mutant"; exit 3; }
